@@ -188,6 +188,9 @@ def gen_case_c03(rng):
         if rng.random() < 0.67:
             pool = [k for k in pool if k not in ('a_b', '1')]
     keys = rng.sample(pool, min(len(pool), rng.choice([3, 5, 8])))
+    longk = [k for k in pool if isinstance(k, str) and len(k) > 200]
+    if len(longk) >= 2 and rng.random() < 0.25:
+        keys = [k for k in keys if k not in longk] + longk[:2]
     if b['kind'] == 'dir' and not is_source(b) and rng.random() < 0.04:
         keys.append('L' * 300)     # entry directory name beyond the 255-byte limit (recorded finding)
     u = Uniq()
